@@ -314,6 +314,9 @@ def check_bin_script(spec, ctx):
     outs = {}
     with tempfile.TemporaryDirectory(prefix='c11bin-') as d:
         path = os.path.join(d, 'g.json')
+        if fgg.factors and use_e and g0 is not None:
+            # -w supplies the factors: the grammar file must not bind them itself
+            j = json.loads(json.dumps(j)); j['interpretation']['factors'] = {}
         with open(path, 'w') as f: json.dump(j, f)
         for method in ('fixed-point', 'newton'):
             for flag in ('', '-O', '-OO'):
